@@ -90,6 +90,58 @@ def check(ctx, env):
                    items[0][2].where(items[0][0]),
                    replay=None if ok else {"function": fnp, "site": "narrow-arith", "undischarged": [{"line": l, "why": w, "callee": None} for l, w, _b in items], "budget": allowed})
         ctx.ob("R14.2", "narrow-ops-examined@%s" % label, n > 0, "%d u8/u16 arithmetic operations examined, %d not bounded" % (n, len(bad)))
+    # R14.3 write extent: mutating slice operations act on a sub-slice of known length, never on "the rest of the buffer"
+    ctx.rule("R14.3", "write extent: every whole-slice mutation reachable from encode (fill, fill_with, iter_mut, reverse, sort, "
+                      "rotate, copy_within) is applied to a sub-slice whose exact length is known (a constant or the checked "
+                      "size), so bytes beyond the returned size are not written by such operations")
+    WRITERS = re.compile(r"slice::<impl \[.*\]>::(fill|fill_with|iter_mut|reverse|rotate_left|rotate_right|sort|sort_unstable|copy_within|swap_with_slice)$")
+    nw = 0
+    badw = []
+    for key in sorted(seen):
+        b = prog.bodies[key]
+        pr = None
+        for c in b.calls():
+            if b.blocks[c.block]["cleanup"] or not WRITERS.search(c.callee_path):
+                continue
+            # only output buffers: u8 slices
+            if "[u8]" not in c.full and "[u8]" not in c.callee_path:
+                t = b.local_ty(c.args[0]["place"]["l"]) if c.args and c.args[0]["k"] != "const" and not c.args[0]["place"]["p"] else {}
+                if "u8" not in t.get("s", ""):
+                    continue
+            nw += 1
+            if pr is None:
+                pr = prover.Prover(b)
+            pr.at = (c.block, 10 ** 6)
+            try:
+                ex = pr.exact_len(c.args[0])
+            finally:
+                pr.at = None
+            if ex is None:
+                badw.append((b, c.line, "%s on a slice of unknown extent" % c.callee_path.split("::")[-1]))
+    for b, line, why in badw:
+        ctx.ob("R14.3", "unbounded-write:%s" % b.path, False, "%s (line %s)" % (why, line), b.where(line),
+               replay={"function": b.path, "line": line, "why": why})
+    ctx.ob("R14.3", "whole-slice-writers-examined", nw >= 5, "%d whole-slice mutations examined, %d on a slice of unknown extent" % (nw, len(badw)))
+    # R14.4 encoder contract, assumed by the prover at every dispatch site: verify it on every impl
+    ctx.rule("R14.4", "encoder contract: every EncodeAttributeValue::encode / Encode::encode impl returns, on Ok(n), an n that is "
+                      "bounded by a checked length of its output slice (or forwards another contract encoder on the same "
+                      "output): this is what 'a shorter buffer returns an error' means per attribute, and what lets the "
+                      "encode loop's own slices be discharged")
+    impls = [b for b in prog.bodies.values() if b.crate == "stun_rs" and b.kind == "AssocFn" and
+             (prover.ENC_CTX_RX.search(b.path) or prover.enc_slice_arg(b.path) is not None)]
+    impls += [b for b in prog.bodies.values() if prover.XOR_ENC_RX.search(b.path)]
+    nimpl = 0
+    budget_contract = {k[0]: v for k, v in budget.items() if k[1] == "encode-contract"}
+    for b in sorted(impls, key=lambda x: x.path):
+        probs = prover.verify_encode_contract(b)
+        nimpl += 1
+        be = budget_contract.get(b.path)
+        ok = not probs or be is not None
+        ctx.ob("R14.4", "contract:%s" % b.path, ok,
+               ("returned size bounded by a checked length" if not probs else
+                ("reviewed exception: %s (%s)" % (be["reason"], probs[0]) if be else "; ".join(probs[:2]))), b.where(),
+               replay=None if ok else {"function": b.path, "site": "encode-contract", "undischarged": [{"line": None, "why": x, "callee": None} for x in probs], "budget": 0})
+    ctx.floor("R14.4", "encoder impls verified", nimpl, 45)
     # the running length of the encoder is a usize converted with u16::try_from (D5 repair)
     enc = entries[0]
     l16 = []
